@@ -9,9 +9,9 @@ for id in $ids; do
   p=${id%%-*}
   git -C $wt checkout -q -- . ; git -C $wt apply $(readlink -f seeded/$id/patch.diff) || { echo "$id NOAPPLY"; continue; }
   if ! python3 -c "import json,sys; sys.exit(0 if any(c['property_id']=='$p' for c in json.load(open('MANIFEST.json'))['checks']) else 1)"; then echo "$id property-not-claimed"; continue; fi
-  out=$(PYVC_REPO=$wt ./check $p --tier quick --no-canaries 2>&1); rc=$?
-  ded=$(python3 -c "import json; e=json.load(open('evidence/$p.json')); print(len(e['coverage']['refuted']), len(e['coverage']['undecided']), (e['coverage'].get('bounded_standins') or [{}])[0].get('failures'))")
+  out=$(VERIF_EVIDENCE_DIR=seeded/.evidence PYVC_REPO=$wt ./check $p --tier quick --no-canaries 2>&1); rc=$?
+  ded=$(python3 -c "import json; e=json.load(open('seeded/.evidence/$p.json')); print(len(e['coverage']['refuted']), len(e['coverage']['undecided']), (e['coverage'].get('bounded_standins') or [{}])[0].get('failures'))")
   echo "$id exit=$rc refuted/undecided/native=$ded :: $(echo "$out" | grep -c VIOLATION) VIOLATION lines"
 done
 git -C /repo worktree remove --force $wt
-# restore evidence of the unchanged tree
+
